@@ -98,3 +98,25 @@ fn test_size_limits() {
         "[]()"
     );
 }
+
+#[test]
+fn test_unguarded_recursion_is_an_error() {
+    for source in [
+        format!("{}x", "not ".repeat(100_000)),
+        format!("{}x", "- ".repeat(100_000)),
+        format!("{}1", "-".repeat(100_000)),
+        format!("x is eq {}1", "-".repeat(100_000)),
+        format!("{}1", "1 if x else ".repeat(100_000)),
+    ] {
+        assert_eq!(eval_err(&source), ErrorKind::SyntaxError, "{:.40}", source);
+    }
+    let source = format!(
+        "{{% for {}a{} in [] %}}{{% endfor %}}",
+        "(".repeat(100_000),
+        ")".repeat(100_000)
+    );
+    assert_eq!(render(&source).unwrap_err().kind(), ErrorKind::SyntaxError);
+    let ternary = format!("{}0", "1 if false else ".repeat(100));
+    assert_eq!(render(&format!("{{{{ {} }}}}", ternary)).unwrap(), "0");
+    assert_eq!(render("{{ not not not true }}{{ - - 1 }}").unwrap(), "False1");
+}
